@@ -20,6 +20,7 @@ def codec_cfg(tier: str, dup_ids: bool = True) -> S.SchemaCfg:
         max_fields=6,
         enum_max_bits=63,
         dup_ids=dup_ids,
+        self_named_field=True,
     )
 
 
@@ -29,6 +30,8 @@ def codec_case(draw, tier: str, n_values: int, vcfg: S.ValCfg = None, dup_ids: b
     # prefer later structs (they nest earlier ones)
     names = [x.name for x in s.structs]
     name = draw(st.sampled_from(names + names[-1:] * 2))
+    if vcfg is None:
+        vcfg = S.ValCfg(int_floats=True)
     vals = draw(st.lists(S.struct_value(s, name, vcfg), min_size=1, max_size=n_values))
     if (vcfg is None or vcfg.pad_blocks) and draw(st.integers(0, 5)) == 0:
         padded = pad_to_block(s, name, vals[0], draw(st.sampled_from([256, 4096, 4096, 8192])),
@@ -136,3 +139,16 @@ def signed_min_image(s: M.Schema, t: M.Type, v: Any) -> Any:
 def matches_signed_min_finding(s: M.Schema, name: str, v: Any, decoded: Any) -> bool:
     img = signed_min_image(s, M.StructRef(name), v)
     return (not refcodec.same_value(img, v)) and refcodec.same_value(decoded, img)
+
+
+def float_norm(s: M.Schema, t: M.Type, v: Any) -> Any:
+    """The value a decoder returns for `v`: a Python int given to a float field comes back as the float."""
+    if isinstance(t, (M.F32, M.F64)):
+        return float(v)
+    if isinstance(t, M.StructRef):
+        return {f.name: float_norm(s, f.type, v[f.name]) for f in s.struct(t.name).fields}
+    if isinstance(t, (M.Arr, M.Dyn)):
+        return [float_norm(s, t.t, x) for x in v]
+    if isinstance(t, M.Opt):
+        return None if v is None else float_norm(s, t.t, v)
+    return v
